@@ -403,6 +403,22 @@ func replay(c *vf.Ctx, bin string) {
 			fl = &f
 		}
 	}
+	if fl != nil && w.Witness.Kind == "life-cycle" {
+		// the life-cycle phase is a fixed sequence: run it again on a fresh server
+		e, err := startServer(c, bin, *fl)
+		if e != nil && e.s != nil {
+			defer e.s.Kill()
+		}
+		if err != nil {
+			c.Broken("replay: %v", err)
+			return
+		}
+		if !e.fixtureRetry() {
+			return
+		}
+		e.runLifecycle()
+		return
+	}
 	if fl == nil || len(w.Witness.Cases) == 0 {
 		c.Broken("replay: witness has no replayable request (kind %q)", w.Witness.Kind)
 		return
